@@ -187,7 +187,7 @@ def ph_check(acc, t, want=None):
 
 
 FIELDS_INT = ['0', '1', '7', '00', '05', '12', '59', '60', '99', '007', '123']
-DECS = ['', '.0', '.5', '.05', '.99', '.999', '.']
+DECS = ['', '.0', '.5', '.05', '.99', '.999', '.', '.1234567', '.0000004', '.9999996', '.123456789012']
 JUNK = ['', ' ', ':', ';', '1:', ':1', '1::2', '1:2:3:4', 'abc', '1a', '1e3', '-5', '+5', ' 5', '5 ', '1 :2', '1: 2', 'nan', 'inf', '-inf', 'infinity', '1_0',
         '٣', '٣:١٠', '1.2.3', '1,5', '1:2,5', '0x10', '1:0x10', '\t1', '1\n', '1;2:3', '1:2;3', '1.5:30', '--1', '1e400', '1e-400', '.', ':.',
         '\x00', ' ', '1:½', '１２']
